@@ -206,6 +206,7 @@ def oracle(case):
     if case.get('kind') == 'polymer':
         cg, fine = sut(resolve, case['input'])
         check_forward_map(case, cg, [('resolved', fine), ('permuted node order', permuted(fine, case['perm_seed']))])
+        check_forward_map_from_graph(case)
         return
     model_g = molgen.model_graph(case['model'])
     ref = model_rdkit(case['model'])
@@ -339,6 +340,7 @@ def oracle(case):
             expect(p is not None and np.allclose(p, want, atol=1e-9), 'map:bead-not-weighted-average',
                    lambda: 'embedd_cg_molecule_via_rdkit: bead %r at %r, weighted average of its atoms is %r' % (k, p, want))
     check_forward_map(case, cg, graphs)
+    check_forward_map_from_graph(case)
 
 
 def check_forward_map(case, cg, graphs):
@@ -377,3 +379,39 @@ def check_forward_map(case, cg, graphs):
             p1 = cgc.nodes[k]['position']
             expect(np.allclose(p1 - p0, t, atol=1e-7), 'map:not-translation-equivariant',
                    lambda: '%s: atoms moved by %r, bead %r moved by %r' % (what, t.tolist(), k, (p1 - p0).tolist()))
+        # a translation that puts one atom of a bead exactly at the origin
+        if first:
+            kb = sorted(first, key=repr)[rnd.randrange(len(first))]
+            members = list(cg.nodes[kb]['graph'].nodes)
+            t0 = -g3.nodes[members[rnd.randrange(len(members))]]['position']
+            before = {k: np.array(cgc.nodes[k]['position']) for k in first}
+            for n in g3.nodes:
+                g3.nodes[n]['position'] = g3.nodes[n]['position'] + t0
+            with np.errstate(all='ignore'):
+                sut(forward_map_molecule, cgc, g3)
+            for k, p0 in before.items():
+                p1 = cgc.nodes[k]['position']
+                expect(np.allclose(p1 - p0, t0, atol=1e-7), 'map:not-translation-equivariant',
+                       lambda: '%s: atoms moved by %r (one atom of bead %r now at the origin), bead %r moved by %r' % (
+                           what, t0.tolist(), kb, k, (p1 - p0).tolist()))
+
+
+def check_forward_map_from_graph(case):
+    """the same molecule resolved through from_graph with the base-graph nodes inserted in shuffled order (the
+    coarse graph then iterates its beads in another order than their keys)"""
+    import random
+    import re
+    from cgsmiles import MoleculeResolver, read_cgsmiles
+    blocks = re.findall(r"\{[^\}]+\}", case['input'])
+    base = sut(read_cgsmiles, blocks[0])
+    order = list(base.nodes)
+    random.Random(case['perm_seed']).shuffle(order)
+    meta = nx.Graph()
+    for n in order:
+        meta.add_node(n, **base.nodes[n])
+    edges = list(base.edges(data=True))
+    random.Random(case['perm_seed'] + 7).shuffle(edges)
+    for a, b, d in edges:
+        meta.add_edge(a, b, **d)
+    cg2, fine2 = sut(lambda: MoleculeResolver.from_graph('.'.join(blocks[1:]), meta).resolve_all())
+    check_forward_map(case, cg2, [('from_graph with base nodes inserted as %r' % order, fine2)])
